@@ -47,13 +47,13 @@ def program(r, non_ascii=False, max_records=5):
             return {"k": "uri", "v": r.choice(["http://x.org/y", "urn:a:b"])}
         if k == "qn":
             return {"k": "qn", "name": {"form": "qn", "prefix": nss[0][0], "ns": nss[0][1], "local": r.choice(["t1", "t2"])}}
-        return {"k": "lang", "v": r.choice(["hi", "été"]), "lang": r.choice(["en", "fr"])}
+        return {"k": "lang", "v": r.choice(["hi", "été"]), "lang": r.choice(["en", "fr", "en-GB", "zh-Hant", "de-AT"])}
 
     def extras(relation):
         out = []
         for _ in range(r.randint(0, 3)):
             an = r.choice(["prov:type", "prov:label", "prov:location", "prov:role", "prov:value", None])
-            an = {"form": "str", "s": an} if an else name(["tag", "tag2"])
+            an = {"form": "str", "s": an} if an else name(["tag", "tag2"] + (["été", "größe"] if non_ascii else []))
             v = val()
             if an["s"] == "prov:label":
                 v = {"k": "str", "v": r.choice(STRINGS)} if r.random() < 0.6 else {"k": "lang", "v": "lbl", "lang": "en"}
